@@ -752,7 +752,8 @@ def c14(pid, tier, work, replay):
         "cancellation before / after the request was sent, replies held back until after the cancellation, over an in-memory transport that "
         "delivers in arbitrary order, a FIFO one and net.Pipe, with and without a pre-built Client; every call / send / recv / handle / cancel / "
         "return event must be a step of VipRpc; plus 40 callers whose handlers all call back at the same time and a chain of 80 nested call-backs "
-        "on one connection; distinct = (event kind, message kind, error?, nesting depth)",
+        "on one connection; 62 abandoned calls answered late per caller so that the pending table (limit 50, oldest 10 evicted: action Evict) "
+        "overflows while fresh calls are made; distinct = (event kind, message kind, error?, nesting depth)",
         ["events are logged under one lock: the codec wrapper logs a message before it is written and after it is read",
          "the faketime runs use one P (interleaving at blocking points); real parallelism is covered by the race-build runs"],
         race_pid="C14")
@@ -808,7 +809,9 @@ def c18(pid, tier, work, replay):
         "rounds of ONE Agent (multi-round histories); compared: the multiset of node calls and the pool calls with arguments; plus the complete "
         "table node flavour (geth, geth light, parity, parity old, parity light, pantheon, unknown) x operation (dial, connect, disconnect, trust, "
         "un-trust x bare id / enode URI, own enode, block number, peer list x entry shape) = 109 cases of ethnode.RemoteNode against a recording "
-        "JSON-RPC server: the requests each operation is on the wire and the peer ids read back (VipEthNode)",
+        "JSON-RPC server: the requests each operation is on the wire and the peer ids read back (VipEthNode); plus the agent against the shipped "
+        "pool.StaticPool (StaticUpdateF / StaticPeerF): every subset of two static nodes x local peer classes squared x strict on/off x targets 0-3 "
+        "= 512 consecutive rounds and 8 starts",
         ["node and pool are recording fakes behind the ethnode.EthNode and pool.Pool interfaces"],
         exhaustive=True)
 
